@@ -189,6 +189,7 @@ func init() {
 		Explanation: "Decides one clause only, 'terminates with a result for any sequence of items' in its no-panic part: every index of the caller-supplied item slice in Linebreak and the linebreaker methods is dominated by a bound check or is an index parameter whose bound is established at every call site (interprocedural index contract), and no explicit panic is reachable from Linebreak. NOT decided: legality of breakpoints, feasibility, optimality, relaxation of the tolerance, termination.",
 		Assumptions: []string{"lb.items[active.Position] (a position stored earlier from a checked index) is listed as unclassified, not decided"},
 		Run: func(c *core.Ctx, r *core.Report) {
+			E4FeasibleWindow(c, r)
 			E4SwallowedGlueStops(c, r)
 			E4GlueAfterBox(c, r)
 			E4DeactivationWithoutPenaltyWidth(c, r)
@@ -256,6 +257,7 @@ func init() {
 		Explanation: "Decides structural agreement among the four back-ends for every drawing: each RenderPath reads every Style field (a back-end that never reads a field cannot honour it); every explicit Dash call receives canvas.ScaleDash(style.StrokeWidth, …) like the reference rasterizer; every path serialised by ToSVG/ToPDF/ToPS/ToScanxScanner derives on every path from Transform(M) with M built from the view parameter (SVG: with the y-flip), incl. the explicit-outline fall-backs; cap/join codes per concrete Capper/Joiner type agree with the formats' tables and the even-odd marker is emitted only under FillRule == EvenOdd; the emitted PDF and PostScript fragments form only operators of the respective vocabulary with balanced save/restore (abstract interpretation with path-sensitive repeated conditions), and procedure names emitted by Path.ToPS are defined in the PS prolog. NOT decided: that an interpreter of the output paints the same pixels, gradients/patterns, text, opacity, unit factors, Positive/Negative fill rules (no back-end format has them).",
 		Assumptions: []string{"the rasterizer is the reference for dash scaling", "PS.RenderImage (binary image data) is outside the grammar rule"},
 		Run: func(c *core.Ctx, r *core.Report) {
+			E5MemoTestCoversFields(c, r)
 			E5ImageSampleDepth(c, r)
 			E11ClusterOffsetBytes(c, r) // the text every back-end writes is cut out of the whole text at cluster offsets
 			E5GradientOffsetsUsed(c, r)
@@ -504,6 +506,7 @@ func init() {
 		Title:       "Embedded fonts and glyph paths reproduce the laid-out text",
 		Explanation: "Decides three structural clauses: (1) 'the glyph subsetter assigns each used glyph one stable code with .notdef at zero' — the constructor and Get/List have exactly the hit/miss/append shape, and the PDF writer creates a font's subsetter only when the font has none (a second writing direction must not reset the codes already written); (2) fonts used for vertical text are kept in their own map and written with the matching vertical flag (Identity-V vs Identity-H), every font map that reserves an object is written in Close, and every Tf operand names a font registered in the page's resources (E5 font-map and resource rules). (3) the ToUnicode grouping loop keeps `start+length` equal to the visited code (E11.run-covers-codes). NOT decided: outlines, advances, the W array contents, the characters the ToUnicode map names, glyph placement in toPath.",
 		Run: func(c *core.Ctx, r *core.Report) {
+			E5MemoTestCoversFields(c, r)
 			E5WArrayPendingFlushed(c, r)
 			E5CIDToGIDEntries(c, r)
 			E5WidthIDSpace(c, r)
@@ -637,6 +640,7 @@ func init() {
 		Explanation: "Decides, for every schedule and history: (1) no package-level variable of the module is stored outside package initialisation except inside a sync.Once/OnceFunc body, with the mutex of the same variable held (dominating Lock, no intervening Unlock), or through sync/atomic, and mutex-protected variables are also read under the mutex; (2) every function that reads the once-initialised pool variables is reachable from the concurrent API set only through a function whose once-call dominates all its other calls; (3) every object taken from a sync.Pool is completely overwritten or has every field stored before its first other use (no state carried between calls); (4) every range over a map in the module is order-independent by construction (collect-then-sort, commutative reductions, per-entry updates, total-order arg-best) or is a reviewed/known entry. NOT decided: races inside third-party packages, use-after-Put of pooled objects, writes through shared *Font objects (see E1 when wired), the naming of unnamed fonts by a global counter (inherent to the API).",
 		Assumptions: []string{"sync, sync/atomic behave as documented", "the API set is the one listed in DESIGN.md §3 C20"},
 		Run: func(c *core.Ctx, r *core.Report) {
+			E7OptionsCopied(c, r)
 			E7GlobalMapEscapes(c, r)
 			E7CachedObjectWritten(c, r)
 			E7FaceWithoutCache(c, r)
